@@ -647,6 +647,7 @@ static bool opSelfApp(const HxLine& l)
   case 'm': v.toMap(); v.toMap().append(String("k"), v); cut = 1; break;
   case 'n': v.toList().append(Variant(List<Variant>())); v.toList().back().toList().append(v); cut = 2; break;
   case 'e': v.toList().append(Variant(1)); v.toList().back() = v; cut = 1; break;
+  case 'k': v.toMap().append(String("k"), Variant(1)); v.toMap().append(String("k"), v); cut = 1; break;
   default: return false;
   }
   printf("selfapp %c", k);
